@@ -365,7 +365,7 @@ def main(argv):
         h = DeriveHarness("c11-" + a.tier, descs)
         if not h.build():
             log = h.build_log
-            badm = sorted(set(int(m) for m in re.findall(r"src/gen/d(\d+)\.rs", log)))
+            badm = sorted(set(int(m) for m in re.findall(r"src/gen/d(\d+)\.rs:\d+:\d+: error", log)))
             derive_only = [i for i in badm if i % 2 == 1 and (i - 1) not in badm]
             if derive_only:
                 i = derive_only[0]
